@@ -15,6 +15,8 @@ the next item is `min` by (time_ns, creation_seq).  Programs are the JSON
       "rev":    bool                return the list reversed
   }
   emit = {"dt": ns (may be negative = into the past), "to": entity, "k": kind, "daemon": bool}
+       | {"prep": i}   hand over prog["prepared"][i] = {"t": absolute ns, "to", "k", "daemon"}: an event object that
+                       was constructed before the run, right after the initial events, but not scheduled then
 
 Creation order (the tie-break the property promises) is the order in which the
 handler body constructs Event objects; the continuation of a generator is
@@ -29,7 +31,10 @@ def q(seconds: float) -> int:
 
 
 class RefEngine:
-    def __init__(self, prog: dict):
+    def __init__(self, prog: dict, injections: dict | None = None):
+        # injections: {n: [emit, ...]} events built and scheduled from outside while the run was paused after its
+        # n-th processed event (as it actually happened on the engine; whether a pause takes effect is C04's business)
+        self.injections = dict(injections or {})
         self.prog = prog
         self.handlers = prog["handlers"]
         self.fuel = prog.get("fuel", 100)
@@ -65,6 +70,13 @@ class RefEngine:
             if self.fuel <= 0:
                 break
             self.fuel -= 1
+            if "prep" in e:
+                # an event object built before the run (creation index from then) and handed to the engine only now
+                rec = self.prepared[e["prep"]]
+                if not rec["handed"]:
+                    rec["handed"] = True
+                    out.append(rec)
+                continue
             out.append(self._new_event(self.now + e["dt"], e["to"], e["k"], e.get("daemon", False)))
         return out
 
@@ -74,6 +86,11 @@ class RefEngine:
             if ini.get("cancel"):
                 rec["cancelled"] = True
         self.pending.extend(self.registry)
+        self.prepared = []
+        for pe in self.prog.get("prepared", []):
+            rec = self._new_event(pe["t"], pe["to"], pe["k"], pe.get("daemon", False))
+            rec["handed"] = False
+            self.prepared.append(rec)
         self.phase = "inrun"
 
     # -- execution ----------------------------------------------------------
@@ -140,9 +157,16 @@ class RefEngine:
                 created = created[:1]
             self.pending.extend(created)
 
+    def _inject(self) -> None:
+        for e in self.injections.pop(self.processed, []):
+            self.phase = "paused"
+            self.pending.append(self._new_event(self.now + e["dt"], e["to"], e["k"], e.get("daemon", False)))
+            self.phase = "inrun"
+
     def run(self, max_deliveries: int = 100_000) -> None:
         end = self.prog.get("end")
         self.load_initial()
+        self._inject()
         while self.pending:
             if end is None and not any(not p["daemon"] for p in self.pending):
                 break
@@ -161,5 +185,6 @@ class RefEngine:
                 self.tie_groups += 1
             self.now = nxt["t"]
             self._deliver(nxt)
+            self._inject()
             if self.processed > max_deliveries:
                 raise RuntimeError("reference interpreter exceeded delivery cap")
